@@ -268,6 +268,10 @@ def finish(pid, results, *, rule, explanation, assumptions, bounds, functions_hi
     print('%s tier=%s: %d units, %d paths (%d non-trivial), %d obligations, %d discharged, %d sat (%d known, %d new, %d not reproduced), %d unknown, %d inconclusive; solver %.1fs, wall %.1fs'
           % (pid, tier, len(results), agg['paths'], agg['nontrivial'], agg['obligations'], agg['discharged'], len(sat),
              sum(len(v) for v in known_hits.values()), len(violations), len(nonrepro), len(unknown), len(inconc), agg['solver_s'], wall))
+    import collections
+    kc = collections.Counter(ce.get('key') for ce in sat)
+    if kc:
+        print('  counterexample roles: %s' % dict(kc.most_common(12)))
     if vio_paths:
         sys.exit(1)
     if inconc or unknown or nonrepro:
